@@ -24,6 +24,12 @@ THEOREMS = [
     "O2P.Time.toNanos_exact",
     "O2P.Time.formatMicros_injective",
     "O2P.Time.toNanosOld_cex",
+    "O2P.Time.fromNanos_exact",
+    "O2P.Time.fromNanos_within",
+    "O2P.Time.fromNanos_order",
+    "O2P.Time.fromNanos_order_far",
+    "O2P.Time.pv_otel_pv",
+    "O2P.Time.otel_pv_otel",
 ]
 MAX_DAY = 47847
 MAX_MICROS = MAX_DAY * 86400 * 10**6
